@@ -446,3 +446,107 @@ func VerifHTMLBodyStart(n int) {
 	vAssert(got == want, "the first element of the body is parsed into the body again (a script there runs with document.body set): "+string(doc)+" => "+string(out))
 	vReach("end")
 }
+
+// Table sections. HTML "in table" / "in table body" / "in row": a tr start tag outside a section opens an implied
+// tbody; a tr start tag while a section is open goes into that section; a section start tag closes the open section.
+// rtTable returns the row groups of the first table as "name[rows]..." with the cell texts.
+func rtTable(doc []byte) []byte {
+	var out []byte
+	section, row, cell := false, false, false
+	closeCell := func() {
+		if cell {
+			out = append(out, ')')
+			cell = false
+		}
+	}
+	closeRow := func() {
+		closeCell()
+		if row {
+			out = append(out, '}')
+			row = false
+		}
+	}
+	closeSection := func() {
+		closeRow()
+		if section {
+			out = append(out, ']')
+			section = false
+		}
+	}
+	i, n := 0, len(doc)
+	for i < n {
+		if doc[i] != '<' {
+			if cell && !rhWS(doc[i]) {
+				out = append(out, doc[i])
+			}
+			i++
+			continue
+		}
+		if rhHas(doc, i, "<!--") {
+			for i < n && !rhHas(doc, i, "-->") {
+				i++
+			}
+			i += 3
+			continue
+		}
+		end := i+1 < n && doc[i+1] == '/'
+		j := i + 1
+		if end {
+			j++
+		}
+		s := j
+		for j < n && doc[j] != '>' {
+			j++
+		}
+		name := string(doc[s:j])
+		i = j + 1
+		switch {
+		case !end && (name == "thead" || name == "tbody" || name == "tfoot"):
+			closeSection()
+			out = append(append(out, name...), '[')
+			section = true
+		case !end && name == "tr":
+			closeRow()
+			if !section {
+				out = append(out, "tbody["...)
+				section = true
+			}
+			out = append(out, '{')
+			row = true
+		case !end && (name == "td" || name == "th"):
+			closeCell()
+			out = append(out, '(')
+			cell = true
+		case end && (name == "td" || name == "th"):
+			closeCell()
+		case end && name == "tr":
+			closeRow()
+		case end && (name == "thead" || name == "tbody" || name == "tfoot"):
+			closeSection()
+		case end && name == "table":
+			closeSection()
+		}
+	}
+	closeSection()
+	return out
+}
+
+// VerifHTMLTableSections (C03): a table of n parts out of 7 (sections with a row, bare rows, comments): the same row
+// groups with the same rows.
+func VerifHTMLTableSections(n int) {
+	parts := []string{"<thead><tr><td>a</td></tr></thead>", "<tbody><tr><td>b</td></tr></tbody>", "<tr><td>c</td></tr>", "<tfoot><tr><td>d</td></tr></tfoot>", "<!--c-->", " ", "<tbody><tr><td>e</td><td>f</td></tr><tr><td>g</td></tr></tbody>"}
+	doc := []byte("<table>")
+	for i := 0; i < n; i++ {
+		doc = append(doc, parts[vChoice("part"+string(rune('0'+i)), len(parts))]...)
+	}
+	doc = append(doc, "</table>"...)
+	o := &Minifier{KeepComments: vBool("KeepComments"), KeepEndTags: vBool("KeepEndTags"), KeepWhitespace: vBool("KeepWhitespace")}
+	want := rtTable(doc)
+	out, err := verifHTMLRun(append(make([]byte, 0, len(doc)+1), doc...), o)
+	vReach("after-call")
+	vOutput("out", out)
+	vAssert(err == nil, "accepted")
+	got := rtTable(out)
+	vAssert(rhEq(got, want), "same row groups: "+string(doc)+" => "+string(out))
+	vReach("end")
+}
